@@ -191,6 +191,14 @@ func strictCheck(blob []byte, id gen.Identity, oid []uint64, content []byte, wan
 	return nil
 }
 
+func firstDiff(a, b []byte) int {
+	i := 0
+	for i < len(a) && i < len(b) && a[i] == b[i] {
+		i++
+	}
+	return i
+}
+
 func mozillaVerify(blob, content []byte, detached bool) error {
 	p, err := mozilla.Parse(blob)
 	if err != nil {
@@ -230,6 +238,14 @@ func checkCase(c Case) error {
 		if err != nil {
 			return fmt.Errorf("SignPKCS7: %v", err)
 		}
+	}
+	// results are independent values: a second signature (other content) must not disturb the first
+	keep := append([]byte{}, blob...)
+	if _, err := pkcs7.SignPKCS7(id.Priv(), id.Cert, oid, append([]byte{0x04, 0x01}, byte(len(blob)))); err != nil {
+		return fmt.Errorf("second SignPKCS7: %v", err)
+	}
+	if !bytes.Equal(keep, blob) {
+		return fmt.Errorf("the bytes returned by SignPKCS7 changed when another signature was made (first difference at %d of %d)", firstDiff(keep, blob), len(blob))
 	}
 	detached := isData || len(content) == 0
 	// classification
